@@ -105,16 +105,21 @@ def run_z3(txt, timeout, want_model=True):
         path = f.name
     t0 = time.time()
     try:
-        p = subprocess.run([Z3BIN, f"-T:{int(timeout)}", "model_validate=true", path], capture_output=True, text=True, timeout=timeout + 5)
+        p = subprocess.run([Z3BIN, f"-T:{int(timeout)}", path], capture_output=True, text=True, timeout=timeout + 5)
         out = p.stdout.strip()
+        if out.startswith("sat"):
+            try:
+                pv = subprocess.run([Z3BIN, "-T:10", "model_validate=true", path], capture_output=True, text=True, timeout=15)
+                if "invalid model" in pv.stdout:
+                    out = "unknown (z3 produced an invalid model)\n" + out
+            except subprocess.TimeoutExpired:
+                pass
     except subprocess.TimeoutExpired:
         out = "timeout"
     finally:
         os.unlink(path)
     dt = time.time() - t0
     first = out.split("\n", 1)[0].strip() if out else "error"
-    if first == "sat" and "invalid model" in out:
-        first = "unknown (z3 produced an invalid model)"
     return first, out, dt
 
 
@@ -200,10 +205,31 @@ async def _solve_async(pairs, timeout_all, jobs, tmpdir, variants=None):
                 f.write(txt.replace("(check-sat)", "(check-sat)\n(get-model)"))
             # model_validate: z3's sequence solver occasionally answers `sat` with a model that falsifies a hypothesis (seen on the descriptor round-trip lemma);
             # such an answer is no verdict -- the query goes on to cvc5 like an `unknown`
-            out, dt = await _run_proc([Z3BIN, f"-T:{int(timeout)}", "model_validate=true", path], timeout)
+            out, dt = await _run_proc([Z3BIN, f"-T:{int(timeout)}", path], timeout)
             first = out.split("\n", 1)[0].strip() if out else "error"
-            if first == "sat" and "invalid model" in out:
-                first = "unknown (z3 produced an invalid model)"
+            if first == "sat":
+                # second run with validation, bounded.  z3's sequence solver occasionally answers `sat` with a model that falsifies a hypothesis.  A reported invalid model
+                # sends the query to cvc5; if cvc5 does not decide it, z3's answer is withdrawn only for quantifier-free queries (validation cannot evaluate quantified
+                # hypotheses reliably, so there an "invalid model" report proves nothing)
+                outv, dtv = await _run_proc([Z3BIN, "-T:10", "model_validate=true", path], 10)
+                dt += dtv
+                if "invalid model" in outv:
+                    with open(path, "w") as f:
+                        f.write(txt if "(set-logic" in txt else "(set-logic ALL)\n" + txt)
+                    oc, dc = await _run_proc([CVC5BIN, "--strings-exp", f"--tlimit={int(timeout * 1000)}", path], timeout)
+                    fc = oc.split("\n", 1)[0].strip() if oc else "error"
+                    dt += dc
+                    if fc == "unsat":
+                        ob.verdict, ob.solver, ob.seconds = "discharged", "cvc5-1.0.3", round(dt, 3)
+                        try:
+                            os.unlink(path)
+                        except OSError:
+                            pass
+                        return
+                    if fc != "sat" and not any(q in txt for q in ("(forall", "(exists", "(lambda")):
+                        first = "unknown (z3 produced an invalid model)"
+                    with open(path, "w") as f:
+                        f.write(txt.replace("(check-sat)", "(check-sat)\n(get-model)"))
             ob.solver, ob.seconds = "z3-5.1", round(dt, 3)
             if first == "unsat":
                 ob.verdict = "discharged"
@@ -270,6 +296,9 @@ def solve_all(obligations, timeout=10, jobs=14):
     import asyncio
     texts = []
     for ob in obligations:
+        if getattr(ob, "preset", False):       # decided at VC generation (syntactic): not sent to a solver
+            texts.append(None)
+            continue
         try:
             texts.append(to_smt2(ob))
         except Exception as e:
